@@ -496,8 +496,11 @@ class Kernel:
         m = max(2, self.line_mean)
         if preempt_codes:
             self._line_gap = 2 * m - self.tape.draw(2 * m)
-        pre = set(preempt_codes)
-        bud = set(budget_codes)
+        # cumulative: several callers may add code objects
+        self._mon_pre = getattr(self, '_mon_pre', set()) | set(preempt_codes)
+        self._mon_bud = getattr(self, '_mon_bud', set()) | set(budget_codes)
+        pre = self._mon_pre
+        bud = self._mon_bud
         self._budget = 0
         self._budget_limit = budget
 
